@@ -22,7 +22,7 @@ fn no_data(d: &MessageDecode) -> bool {
     d.answers.is_empty() && d.authority.is_empty() && plain_additional(d).is_empty()
 }
 
-fn judge(req: &[u8], tcp: bool, resp: &[u8], twin: Option<&[u8]>, sc: &Scan, t0: u64, t1: u64, st: &mut Stats) -> Verdict {
+fn judge(req: &[u8], tcp: bool, resp: &[u8], twin: Option<&[u8]>, limit: usize, sc: &Scan, t0: u64, t1: u64, st: &mut Stats) -> Verdict {
     let what = || format!("request {} over {}", hex(req), if tcp { "TCP" } else { "UDP" });
     let ts = match &sc.tsig {
         Some(t) => t,
@@ -163,8 +163,12 @@ fn judge(req: &[u8], tcp: bool, resp: &[u8], twin: Option<&[u8]>, sc: &Scan, t0:
                 if *s == Stage::NotImp && rc != 4 {
                     return Err(format!("RCODE {rc}, expected NOTIMP"));
                 }
-                if let Some(tw) = twin {
-                    let tw = decode_message(tw).map_err(|e| format!("twin response undecodable: {e:?}"))?;
+                if let Some(tw_bytes) = twin {
+                    let tw = decode_message(tw_bytes).map_err(|e| format!("twin response undecodable: {e:?}"))?;
+                    // The space reserved for the TSIG record is not available to optional additional
+                    // records: when the unsigned answer ends within 300 octets of the limit, the signed
+                    // one may carry fewer of them (a subset), never others.
+                    let near_limit = tw_bytes.len() + 300 > limit;
                     if !tw.header.tc && !d.header.tc {
                         let sec = |m: &MessageDecode| {
                             let mut a: Vec<_> = m.answers.iter().map(canon_decoded).collect();
@@ -176,7 +180,13 @@ fn judge(req: &[u8], tcp: bool, resp: &[u8], twin: Option<&[u8]>, sc: &Scan, t0:
                             c.dedup();
                             (m.extended_rcode(), m.header.aa, a, b, c)
                         };
-                        if sec(&tw) != sec(&d) {
+                        let (st_, sd_) = (sec(&tw), sec(&d));
+                        let same = if near_limit {
+                            (&st_.0, &st_.1, &st_.2, &st_.3) == (&sd_.0, &sd_.1, &sd_.2, &sd_.3) && sd_.4.iter().all(|r| st_.4.contains(r))
+                        } else {
+                            st_ == sd_
+                        };
+                        if !same {
                             return Err(format!("the answer differs from the answer to the same request without TSIG: RCODE/AA {}/{} vs {}/{}, {}+{} vs {}+{} answer+authority records", rc, d.header.aa, tw.extended_rcode(), tw.header.aa, d.answers.len(), d.authority.len(), tw.answers.len(), tw.authority.len()));
                         }
                     }
@@ -216,9 +226,24 @@ pub fn oracle_with(case: &Case, pool: Option<Vec<(vmodel::name::MName, u16)>>, s
     let (cat, model) = build(&case.catalog);
     let mut cfg = case.cfg.clone();
     cfg.rrl = None;
+    let pool = pool.unwrap_or_else(|| query_names(&model, &[], 400));
+    // One key in three is renamed to a name that occurs in the catalog, so that the TSIG owner can
+    // share labels with names inside the response (also with names of records that were written
+    // and then discarded when the response is truncated).
+    if !pool.is_empty() {
+        for k in cfg.keys.iter_mut() {
+            if k.secret.len() % 3 == 0 {
+                let cand = pool[(k.secret[0] as usize * 7 + k.secret.len()) % pool.len()].0.folded();
+                if cand.is_valid() && !cand.labels.is_empty() {
+                    k.name = cand;
+                }
+            }
+        }
+        let mut seen = std::collections::BTreeSet::new();
+        cfg.keys.retain(|k| seen.insert(k.name.folded()));
+    }
     let server = make_server(&cat, &cfg);
     let payload = server.payload();
-    let pool = pool.unwrap_or_else(|| query_names(&model, &[], 400));
     let keys = keys_for_scan(&cfg);
     let mut buf = Vec::new();
     for r in &case.requests {
@@ -271,7 +296,7 @@ pub fn oracle_with(case: &Case, pool: Option<Vec<(vmodel::name::MName, u16)>>, s
             } else {
                 None
             };
-            judge(&rendered.bytes, r.tcp, &resp, twin.as_deref(), &sc, t0, t1, st)?;
+            judge(&rendered.bytes, r.tcp, &resp, twin.as_deref(), limit, &sc, t0, t1, st)?;
             break;
         }
     }
@@ -280,7 +305,7 @@ pub fn oracle_with(case: &Case, pool: Option<Vec<(vmodel::name::MName, u16)>>, s
 
 fn case_strategy() -> impl Strategy<Value = Case> {
     let cfg = (prop_oneof![Just(1232u16), Just(4096u16), Just(512u16)], key_specs()).prop_map(|(payload, keys)| ServerCfg { payload, keys, rrl: None });
-    (catalog_spec(true, false, true), cfg, prop::collection::vec(req_spec(4, 0.95), 1..10)).prop_map(|(catalog, cfg, requests)| Case {
+    (prop_oneof![3 => catalog_spec(true, false, true).boxed(), 1 => catalog_spec(true, true, true).boxed()], cfg, prop::collection::vec(req_spec(4, 0.95), 1..10)).prop_map(|(catalog, cfg, requests)| Case {
         catalog,
         cfg,
         requests,
